@@ -169,6 +169,8 @@ def shape_inputs(tier):
         out.append((tag, data, None, None))
     for tag, data in G.import_graphs():
         out.append((tag, data, None, None))
+    for tag, data in G.builtin_arity():
+        out.append((tag, data, None, None))
     for n in ([1, 5, 6, 7] if quick else [1, 2, 5, 6, 7, 8, 20, 100]):
         for nested in (False, True):
             out.append((f"include:{n}:{'nested' if nested else 'flat'}", G.include_chain(n, nested), None, None))
@@ -300,7 +302,7 @@ def make_key(tool, r, fam):
     return re.sub(r"\s+", "_", key)
 
 
-EXTRA_MARKS = [("use_cycle", ("SCOPEfind_for_rename", "SCOPE_find_for_rename", "RENAMEresolve", "use_cycle", "imports:")), ("errbuf", ("ERROR_nexterror", "ERROR_vprintf", "ERRORvreport_with_symbol", "errbuf")), ("longexpr", ("exp_output", "format_for_std_stringout")), ("selectsearch", ("EXP_resolve_op_dot_fuzzy", "EXP_resolve_op_group_fuzzy", "EXPresolve_op_dot", "EXPresolve_op_group")),
+EXTRA_MARKS = [("quoted", ("EXPRstring", "EXPRlength", "boundary:quoted")), ("use_cycle", ("SCOPEfind_for_rename", "SCOPE_find_for_rename", "RENAMEresolve", "use_cycle", "imports:")), ("errbuf", ("ERROR_nexterror", "ERROR_vprintf", "ERRORvreport_with_symbol", "errbuf")), ("longexpr", ("exp_output", "format_for_std_stringout")), ("selectsearch", ("EXP_resolve_op_dot_fuzzy", "EXP_resolve_op_group_fuzzy", "EXPresolve_op_dot", "EXPresolve_op_group")),
                ("subtype_cycle", ("ENTITYcalculate_inheritance", "ENTITYget_named_attribute", "subtype_cycle")),
                ("wide", ("non_unique_types_string",))]
 
@@ -382,7 +384,7 @@ THEOREM_SITE = {
     "C06_scope_depth": ["nested_functions", "nested_queries"], "C06_scope_depth_tokens": ["nested_functions"],
     "C06_scope_index_in_range": ["nested_functions"],
     "C06_no_overflow_wrap": ["ident_entity", "encoded_string"], "C06_no_overflow_raw": ["string_literal"],
-    "C06_no_overflow_wrap_line": [], "C06_no_overflow_exprlength": ["ident_attribute"],
+    "C06_no_overflow_wrap_line": [], "C06_no_overflow_exprlength": ["ident_attribute", "quoted"],
     "C06_no_overflow_case_fns": ["ident_enum_item", "ident_attribute", "ident_schema"], "C06_ident_gate": ["ident_enum_item", "ident_schema"],
     "C06_ident_gate_present": ["ident_enum_item", "ident_schema"], "C06_no_overflow_type_description": ["many_enum_items"],
     "C06_no_overflow_exppp_filename": ["ident_schema"],
@@ -481,6 +483,23 @@ def run(ctx):
                     disagreements.append(("subtype_cycle", n, t, preds, "cyclic SUBTYPE OF accepted"))
             elif r["cls"] not in R.BAD:
                 disagreements.append(("subtype_cycle", n, t, preds, f"{r['cls']} rc={r['rc']}"))
+    # string literals with apostrophes wherever the printers measure or print an expression: EXPRstring vs EXPRstring_bound
+    sizes = [(100, 1.0), (5000, 0.5), (6000, 1.0), (9900, 0.05), (9900, 1.0), (12000, 0.5)] if quick else \
+            [(n, d) for n in (100, 127, 5000, 6000, 9871, 9900, 12000, 60000) for d in (0.0, 0.02, 0.5, 1.0)]
+    for pos in G.QUOTED_POSITIONS:
+        for n, dens in sizes:
+            q = int(round(n * dens))
+            pred = model.one(f"exprlit {n} {q}")
+            tag = f"boundary:quoted:{pos}:{n}:{q}"
+            res = run_.run([(tag, G.quoted_literal(pos, n, dens), None, None)], tools_of=lambda tg, f: ["exppp", "exp2cxx", "check-express"], timeout=tmo)
+            for t in ("exppp", "exp2cxx"):
+                r = res[(tag, t)]
+                ncomp += 1
+                hit = r["cls"] in R.BAD and any(x in r["sig"] + r["err"][:2500] for x in ("EXPRstring", "EXPRlength", "CASEout"))
+                if pos.startswith("case_label") and (mclass(pred) == "overflow") != hit:
+                    disagreements.append(("quoted", f"{pos}:{n}:{q}", t, pred, f"{r['cls']} {r['sig']}"))
+                elif not pos.startswith("case_label") and hit:
+                    disagreements.append(("quoted", f"{pos}:{n}:{q}", t, pred, f"{r['cls']} {r['sig']}"))
     # interface resolution: a missing item imported from a schema on a ring of whole-schema USE clauses
     for n in (1, 2, 3, 7):
         pred = model.one(f"renamesearch {n}")
